@@ -37,6 +37,7 @@ NAMES = {"pptx": {"d": "ppt", "s": "slides", "m": "media"}, "xlsx": {"d": "xl", 
          "pdf": {"m": "m"}, "rtf": {"m": "m"}}
 KINDS = {"pdf": ["jpeg", "raw"], "rtf": ["png", "jpeg"]}
 ALL_KINDS = ["png", "jpeg", "gif", "bmp"]
+NAME_VARIANTS = ["lower", "upper", "mixed", "double", "lower", "upper", "mixed", "double", "lower", "noext"]
 SINGLE_UNIT = {"docx", "odt", "odg", "epub"}          # one unit for the image model (flow formats, drawings)
 EXTRACTORS = {"docx": "read_docx", "pptx": "read_pptx", "xlsx": "read_xlsx", "odt": "read_odt", "odp": "read_odp",
               "ods": "read_ods", "odg": "read_odg", "epub": "read_epub", "pdf": "read_pdf", "rtf": "read_rtf"}
@@ -61,6 +62,10 @@ def _missing(a):         # a reference to a part that is not in the package
     return any(t["mode"] == "embed" and t["to"] == 0 for t in a["cands"])
 
 
+def _anchored(c, flag):      # some anchor refers to a media part carrying the flag
+    return any(t["mode"] == "embed" and t["to"] and c["media"][t["to"] - 1][flag] for a in c["anchors"] for t in a["cands"])
+
+
 def _returned_as_built(c, a):   # frames the unrepaired ODF extractors turn into a record
     return _external(a) or c["fmt"] == "odg" or not (_dotted(a) or _missing(a))
 
@@ -71,6 +76,8 @@ FINDING_DEV = {
     "KF-C14-03": ("Odg!MissingReturnedEmpty", lambda c: c["fmt"] == "odg" and _has(c, lambda a: _missing(a) or _dotted(a))),
     "KF-C14-04": ("Odf!HrefVerbatim", lambda c: c["fmt"] in ODF and _has(c, _dotted)),
     "KF-C14-05": ("Epub!ManifestOrder", lambda c: c["fmt"] == "epub" and c["order"] != sorted(c["order"])),
+    "KF-C14-06": ("Ooxml!JpegFillBytesNotSkipped", lambda c: c["fmt"] in ("docx", "pptx", "xlsx") and _anchored(c, "fill")),
+    "KF-C14-07": ("Name!ContentTypeFromExtension", lambda c: c["fmt"] in ("docx", "pptx", "xlsx") + ODF and _anchored(c, "noext")),
 }
 FIXTURE_FINDING_DEV = {}
 
@@ -87,6 +94,7 @@ SENSITIVITY = [
     ("Odf!FrameSizeAsPixelSize", "odf", "cases", 1), ("Ods!MissingCountsInNumbering", "odf", "cases", 2),
     ("Pdf!ImageNumberRestartsPerPage", "inline", "cases", 2), ("Pptx!AbsoluteUnderBase", "opc2", "paths", 1),
     ("Pptx!MixedDotDotDropped", "opc2", "paths", 1), ("Docx!PrefixOnly", "opc2", "paths", 1),
+    ("Shared!ReferenceReturnedAgain", "opc1", "cases", 2), ("Shared!ReferenceReturnedAgain", "epub", "cases", 2),
 ]
 QUICK_SENS = 6
 
@@ -123,12 +131,20 @@ def concretise(case, fmt, rng):
     # file names: same basename in two directories when the parts live in different directories
     same = (len(media) == 2 and media[0]["loc"] != media[1]["loc"] and media[0]["kind"] == media[1]["kind"]
             and rng.random() < 0.5)
-    ext = lambda m: {"jpeg": rng.choice(["jpeg", "jpg"]) if fmt != "epub" else "jpeg", "raw": "bin"}.get(m["kind"], m["kind"])
+    ext = lambda m: {"jpeg": rng.choice(["jpeg", "jpg"]), "raw": "bin"}.get(m["kind"], m["kind"])
+    # how the part is CALLED (taken in turn): lower / UPPER / Mixed-case extension, double extension, no extension
+    name_turn = rng.randrange(len(NAME_VARIANTS))
     fnames = {}
     for k, m in enumerate(media, start=1):
-        fnames[f"f{k}"] = f"image{1 if same else k}.{ext(m)}"
+        nv = NAME_VARIANTS[(name_turn + (1 if same else k)) % len(NAME_VARIANTS)] if fmt not in ("pdf", "rtf") else "lower"
+        n, e = (1 if same else k), ext(m)
+        fnames[f"f{k}"] = {"lower": f"image{n}.{e}", "upper": f"IMAGE{n}.{e.upper()}", "mixed": f"Scan{n}.{e.capitalize()}",
+                           "double": f"image{n}.tar.{e}", "noext": f"image{n}"}[nv]
+        m["noext"] = nv == "noext"
+        m["fill"] = m["var"].startswith("fill")
     if same:
         fnames["f2"] = fnames["f1"]
+        media[1]["noext"] = media[0]["noext"]
 
     def seg(s, k=None):
         if s in ("..", ".", "x", "nope", ""):
@@ -149,6 +165,8 @@ def concretise(case, fmt, rng):
         if fmt == "xlsx":
             an["atype"] = rng.choice(["one", "two", "abs"])
             an["ext"] = rng.choice([(100, 100), (952500, 476250), (1905000, 952500)])
+            if an["atype"] != "two":      # display extent in px (what the as-built fallback reports)
+                an["fw"], an["fh"] = an["ext"][0] // 9525, an["ext"][1] // 9525
         if fmt == "pdf":
             # the /Filter form of this image XObject: single name, one-element array, cascades; taken in turn
             # (anchor position + a seeded offset): ~100 PDF documents per quick run cover every form many times
@@ -169,6 +187,16 @@ def concretise(case, fmt, rng):
     if fmt in SINGLE_UNIT:
         for a in anchors:
             a["unit"] = 1
+    # identity of the reference behind each anchor: relationship id (OOXML), href (ODF, EPUB), the anchor itself (inline)
+    from ..c14_writers import _rids, target_string
+    if fmt in ("docx", "pptx", "xlsx"):
+        keys = _rids({"anchors": anchors}, True)
+    elif fmt in ("pdf", "rtf"):
+        keys = list(range(len(anchors)))
+    else:
+        keys = [target_string(a["cands"][0], i + 1) for i, a in enumerate(anchors)]
+    for i, a in enumerate(anchors):
+        a["ref"] = keys.index(keys[i]) + 1
     conc = {"fmt": fmt, "base": [seg(s) for s in case["base"]], "media": media, "anchors": anchors,
             "order": list(case["order"]), "nunits": nunits}
     if fmt == "xlsx":
@@ -189,8 +217,9 @@ def concretise(case, fmt, rng):
 def header(conc):
     return {"fmt": conc["fmt"], "base": conc["base"], "order": conc["order"],
             **({"sheetrels": [[str(u)] + v for u, v in sorted(conc["sheetrels"].items())]} if conc.get("sheetrels") else {}),
-            "media": [{"part": m["part"], "kind": m["kind"], "w": m["w"], "h": m["h"], "var": m["var"]} for m in conc["media"]],
-            "anchors": [dict({"unit": a["unit"], "cands": a["cands"], "fw": a["fw"], "fh": a["fh"]},
+            "media": [{"part": m["part"], "kind": m["kind"], "w": m["w"], "h": m["h"], "var": m["var"],
+                       "fill": bool(m.get("fill")), "noext": bool(m.get("noext"))} for m in conc["media"]],
+            "anchors": [dict({"unit": a["unit"], "cands": a["cands"], "ref": a["ref"], "fw": a["fw"], "fh": a["fh"]},
                              **({"pfilter": a["pfilter"]} if "pfilter" in a else {}),
                              **({"pict": f"wrap={a['wrap']} eol={'CRLF' if a['eol'] != chr(10) else 'LF'} crop={int(a['crop'])} "
                                          f"scale={int(a['scale'])} blipuid={int(a['blipuid'])}"} if "wrap" in a else {}))
@@ -358,26 +387,57 @@ def validate_with_findings(ctx, traces, finding_dev, label):
     for t, tv in rejected:
         fids = tuple(sorted(fid for fid, (_, dom) in open_f.items() if dom(t["conc"])))
         groups.setdefault(fids, []).append((t, tv))
+    from concurrent.futures import ThreadPoolExecutor
+
+    def as_built(fids):          # one TLC validation per group of findings; the groups run concurrently
+        return validate("ImagesTrace", trace_cfg([open_f[f][0] for f in fids]), [t for t, _ in groups[fids]],
+                        scratch=ctx.scratch, parallel=4, min_chunk=120, diagnose=0)
+    todo = sorted(f for f in groups if f)
+    with ThreadPoolExecutor(max_workers=8) as ex:
+        results = dict(zip(todo, ex.map(as_built, todo)))
     for fids, items in sorted(groups.items()):
         if not fids:
             for t, tv in items:
                 v.violation(what=describe(t, tv), case={"hdr": t["hdr"], "events": t["ev"]}, where=WHERE.get(t["hdr"]["fmt"], ""))
             continue
         devs = [open_f[f][0] for f in fids]
-        b2 = validate("ImagesTrace", trace_cfg(devs), [t for t, _ in items], scratch=ctx.scratch, parallel=14,
-                      min_chunk=120, diagnose=0)
+        b2 = results[fids]
         ev.tlc_counts(f"ImagesTrace: as-built validation with {'+'.join(devs)}", b2.distinct, b2.states, b2.wall_s)
+        left = []
         for (t, tv), tv2 in zip(items, b2.verdicts):
             if tv2.accepted:
                 for f in fids:
                     v.known(f, describe(t, tv))
             else:
-                v.violation(what=describe(t, tv) + f" [also rejected by the as-built model with {devs}]",
-                            case={"hdr": t["hdr"], "events": t["ev"]}, where=WHERE.get(t["hdr"]["fmt"], ""))
+                left.append((t, tv))
+        # A case can lie in the domain of a finding whose wrong step it does not exhibit (e.g. the step has been
+        # repaired but the entry is still open): try the as-built model with every smaller set of these findings.
+        import itertools
+        for size in range(len(fids) - 1, 0, -1):
+            for sub in itertools.combinations(fids, size):
+                if not left:
+                    break
+                b3 = validate("ImagesTrace", trace_cfg([open_f[f][0] for f in sub]), [t for t, _ in left],
+                              scratch=ctx.scratch, parallel=4, min_chunk=120, diagnose=0)
+                ev.tlc_counts(f"ImagesTrace: as-built validation with the subset {'+'.join(open_f[f][0] for f in sub)}",
+                              b3.distinct, b3.states, b3.wall_s)
+                nxt = []
+                for (t, tv), tv3 in zip(left, b3.verdicts):
+                    if tv3.accepted:
+                        for f in sub:
+                            v.known(f, describe(t, tv))
+                    else:
+                        nxt.append((t, tv))
+                left = nxt
+        for t, tv in left:
+            v.violation(what=describe(t, tv) + f" [also rejected by the as-built model with {devs} and its subsets]",
+                        case={"hdr": t["hdr"], "events": t["ev"]}, where=WHERE.get(t["hdr"]["fmt"], ""))
 
 
 def make_trace(tid, conc, obs):
-    return {"id": tid, "hdr": header(conc), "conc": {k: conc[k] for k in ("fmt", "anchors", "order")},
+    return {"id": tid, "hdr": header(conc),
+            "conc": dict({k: conc[k] for k in ("fmt", "anchors", "order")},
+                         media=[{"fill": bool(m.get("fill")), "noext": bool(m.get("noext"))} for m in conc["media"]]),
             "ev": [{"a": "Doc", "D": obs["D"]}, {"a": "Units", "D": obs["D"], "U": obs["U"]}]}
 
 
